@@ -97,3 +97,175 @@ Proof.
   destruct (Z.leb_spec rem full) as [_|?]; [|lia]. destruct (Z.ltb_spec tmp (2 ^ (full - rem))) as [_|?]; [|lia].
   exact H4.
 Qed.
+
+Lemma lor_lt_256 : forall a b, 0 <= a < 256 -> 0 <= b < 256 -> 0 <= Z.lor a b < 256.
+Proof.
+  intros a b Ha Hb. split; [apply Z.lor_nonneg; lia|].
+  destruct (Z.eq_dec (Z.lor a b) 0) as [->|Hn]; [lia|].
+  change 256 with (2 ^ 8). apply Z.log2_lt_pow2; [assert (0 <= Z.lor a b) by (apply Z.lor_nonneg; lia); lia|].
+  rewrite Z.log2_lor by lia.
+  assert (La : Z.log2 a < 8) by (destruct (Z.eq_dec a 0) as [->|]; [simpl; lia | apply Z.log2_lt_pow2; [lia | change (2 ^ 8) with 256; lia]]).
+  assert (Lb : Z.log2 b < 8) by (destruct (Z.eq_dec b 0) as [->|]; [simpl; lia | apply Z.log2_lt_pow2; [lia | change (2 ^ 8) with 256; lia]]).
+  lia.
+Qed.
+
+Lemma melmask_zero : forall rem, 1 <= rem <= 8 -> Z.land (Z.shiftl 255 rem) 255 = 0 -> rem = 8.
+Proof.
+  intros rem Hr H.
+  assert (C : rem = 1 \/ rem = 2 \/ rem = 3 \/ rem = 4 \/ rem = 5 \/ rem = 6 \/ rem = 7 \/ rem = 8) by lia.
+  destruct C as [->|[->|[->|[->|[->|[->|[->| ->]]]]]]]; try reflexivity; vm_compute in H; discriminate.
+Qed.
+
+(* terminateOJPHMELVLC: the MEL bytes stand for the emitted bits followed by SOME further bits
+   (zero padding, or the low bits of the fused VLC byte) *)
+Lemma terminate_spec : forall s vt vu more,
+  let sf := if mw_run s >? 0 then melw_emit s 1 else s in
+  w_ok sf -> 0 <= vt < 256 ->
+  Forall (fun b => 0 <= b < 256) (fst (ojph_mel_terminate s vt vu more)) /\
+  exists tail, unstuff 0 (fst (ojph_mel_terminate s vt vu more)) = w_repr sf ++ tail /\ (length tail <= 8)%nat.
+Proof.
+  intros s vt vu more sf [Hrem [Htmp Hbuf]] Hvt. unfold ojph_mel_terminate. fold sf.
+  assert (Hfull : w_full sf = 7 \/ w_full sf = 8) by (unfold w_full; destruct (w_last sf =? 255); auto).
+  set (c := Z.to_nat (w_full sf - mw_rem sf)). set (r := Z.to_nat (mw_rem sf)).
+  assert (Epow : 2 ^ (w_full sf - mw_rem sf) * 2 ^ mw_rem sf = 2 ^ w_full sf).
+  { rewrite <- Z.pow_add_r by lia. f_equal. ring. }
+  assert (Hp256 : 2 ^ w_full sf <= 256).
+  { destruct Hfull as [E|E]; rewrite E; [change (2 ^ 7) with 128|change (2 ^ 8) with 256]; lia. }
+  assert (Hpr : 0 < 2 ^ mw_rem sf) by (apply Z.pow_pos_nonneg; lia).
+  assert (Emt : Z.shiftl (mw_tmp sf) (mw_rem sf) = mw_tmp sf * 2 ^ Z.of_nat r).
+  { rewrite Z.shiftl_mul_pow2 by lia. unfold r. rewrite Z2Nat.id by lia. reflexivity. }
+  assert (Hmt : 0 <= mw_tmp sf * 2 ^ Z.of_nat r < 256) by (unfold r; rewrite Z2Nat.id by lia; nia).
+  assert (Hfn : (if w_last sf =? 255 then 7%nat else 8%nat) = (c + r)%nat).
+  { unfold c, r. unfold w_full in *. destruct (w_last sf =? 255); lia. }
+  destruct (Z.eqb_spec (Z.lor (Z.land (Z.shiftl 255 (mw_rem sf)) 255)
+                             (if vu >? 0 then Z.shiftr 255 (8 - vu) else 0)) 0) as [Hz|Hnz].
+  - apply Z.lor_eq_0_iff in Hz. destruct Hz as [Hm _].
+    assert (H8 : mw_rem sf = 8) by (apply melmask_zero; [lia|exact Hm]).
+    cbn [fst]. split; [apply Forall_rev; exact Hbuf|]. exists []. split; [|cbn [length]; lia]. rewrite app_nil_r.
+    unfold w_repr. assert (Hf8 : w_full sf = 8) by lia. rewrite Hf8, H8. cbn [Z.sub Z.to_nat msb_bits].
+    rewrite Z.sub_diag. cbn [Z.to_nat msb_bits]. rewrite app_nil_r. reflexivity.
+  - rewrite Emt.
+    set (mtmp := mw_tmp sf * 2 ^ Z.of_nat r) in *.
+    set (fuse := Z.lor mtmp vt).
+    assert (Hfz : 0 <= fuse < 256) by (apply lor_lt_256; assumption).
+    match goal with |- context [if ?cnd then _ else _] => destruct cnd eqn:Ecnd end.
+    + (* fused *)
+      cbn [fst rev]. apply andb_prop in Ecnd. destruct Ecnd as [Ecnd _]. apply andb_prop in Ecnd. destruct Ecnd as [Ecnd _].
+      apply Z.eqb_eq in Ecnd. apply Z.lor_eq_0_iff in Ecnd. destruct Ecnd as [Hagree _].
+      assert (Ew : wrapU 8 fuse = fuse) by (unfold wrapU; apply Z.mod_small; change (2 ^ 8) with 256; lia).
+      rewrite Ew. split.
+      * apply Forall_app. split; [apply Forall_rev; exact Hbuf|]. constructor; [exact Hfz|constructor].
+      * pose proof (fuse_keeps_mel_bits (w_full sf) (mw_rem sf) (mw_tmp sf) fuse Hfull ltac:(lia) Htmp Hfz) as Hk.
+        unfold fuse_ok in Hk. rewrite Emt in Hk. fold mtmp in Hk. rewrite Hagree, Z.eqb_refl in Hk. cbn [implb] in Hk.
+        apply zlist_eqb_eq in Hk. fold c in Hk.
+        exists (skipn c (msb_bits (Z.to_nat (w_full sf)) fuse)).
+        split; [|rewrite skipn_length, msb_bits_length; destruct Hfull as [E|E]; rewrite E; lia].
+        rewrite unstuff_snoc, last_rev_hd. unfold w_repr. rewrite <- app_assoc. f_equal.
+        fold c. rewrite <- Hk. fold (w_last sf).
+        replace (if w_last sf =? 255 then 7%nat else 8%nat) with (Z.to_nat (w_full sf))
+          by (unfold w_full; destruct (w_last sf =? 255); reflexivity).
+        symmetry. apply firstn_skipn.
+    + (* not fused: left-aligned MEL byte *)
+      cbn [fst rev].
+      assert (Ew : wrapU 8 mtmp = mtmp) by (unfold wrapU; apply Z.mod_small; change (2 ^ 8) with 256; lia).
+      rewrite Ew. split.
+      * apply Forall_app. split; [apply Forall_rev; exact Hbuf|]. constructor; [exact Hmt|constructor].
+      * exists (repeat 0 r). split; [|rewrite repeat_length; unfold r; lia].
+        rewrite unstuff_snoc, last_rev_hd. unfold w_repr. rewrite <- app_assoc. f_equal.
+        fold c. fold (w_last sf). rewrite Hfn. unfold mtmp. apply msb_bits_pad. lia.
+Qed.
+
+(* the whole live writer *)
+Lemma ojph_writer_bits : forall evs vt vu more, 0 <= vt < 256 ->
+  let mel := fst (ojph_mel_terminate (melw_encode_all evs) vt vu more) in
+  Forall (fun b => 0 <= b < 256) mel /\
+  exists tail, unstuff 0 mel = bits_of_runs (runs_of evs 0 0) 0 ++ tail /\ (length tail <= 8)%nat.
+Proof.
+  intros evs vt vu more Hvt. cbv zeta. unfold melw_encode_all.
+  destruct (encode_all_spec_j evs melw_init 0 0 init_wst) as [Hok Hr]. cbv zeta in Hok, Hr.
+  destruct (terminate_spec (fold_left melw_encode evs melw_init) vt vu more Hok Hvt) as [Hb [tail [Ht Hl]]].
+  split; [exact Hb|]. exists tail. split; [|exact Hl]. rewrite Ht, Hr, outj_bits. reflexivity.
+Qed.
+
+(* ---------- size of the MEL segment, and the Scup budget of a legal code-block ---------- *)
+Lemma outj_length : forall evs k run, 0 <= k <= 12 ->
+  (length (outj evs k run) <= 6 * length evs + 1)%nat.
+Proof.
+  induction evs as [|[|] evs IH]; intros k run Hk.
+  - cbn [outj length]. destruct (run >? 0); cbn [length]; lia.
+  - cbn [outj length]. rewrite app_length. cbn [length]. rewrite msb_bits_length.
+    pose proof (mel_e_range k Hk). pose proof (IH (kdn k) 0 (kdn_range k Hk)). lia.
+  - cbn [outj length]. destruct (run + 1 >=? thr k).
+    + cbn [length]. pose proof (IH (kup k) 0 (kup_range k Hk)). lia.
+    + pose proof (IH k (run + 1) Hk). lia.
+Qed.
+
+Lemma unstuff_length_ge : forall l p, (7 * length l <= length (unstuff p l))%nat.
+Proof.
+  induction l as [|b l IH]; intro p; cbn [unstuff length]; [lia|].
+  rewrite app_length, msb_bits_length. pose proof (IH b). destruct (p =? 255); lia.
+Qed.
+
+(* every byte of the MEL segment carries at least 7 coded bits: its length is bounded by the events *)
+Theorem ojph_mel_bytes_bound : forall evs vt vu more, 0 <= vt < 256 ->
+  (7 * length (fst (ojph_mel_terminate (melw_encode_all evs) vt vu more)) <= 6 * length evs + 9)%nat.
+Proof.
+  intros evs vt vu more Hvt. unfold melw_encode_all.
+  destruct (encode_all_spec_j evs melw_init 0 0 init_wst) as [Hok Hr]. cbv zeta in Hok, Hr.
+  destruct (terminate_spec (fold_left melw_encode evs melw_init) vt vu more Hok Hvt) as [Hb [tail [Ht Hl]]].
+  pose proof (unstuff_length_ge (fst (ojph_mel_terminate (fold_left melw_encode evs melw_init) vt vu more)) 0) as Hu.
+  rewrite Ht, Hr in Hu. rewrite !app_length in Hu.
+  pose proof (outj_length evs 0 0 ltac:(lia)).
+  change (w_repr melw_init) with (@nil Z) in Hu. cbn [length] in Hu. lia.
+Qed.
+
+(* longest codewords of the other two contributions to the suffix *)
+Lemma vlc_codeword_max : forall first e, In e (src_of first) -> 1 <= ve_len e <= 7.
+Proof.
+  intros first e Hin. destruct vlc_src_wf as [W0 W1].
+  assert (Hwf : vlc_entry_wf e = true)
+    by (destruct first; [exact (proj1 (forallb_forall _ _) W0 e Hin) | exact (proj1 (forallb_forall _ _) W1 e Hin)]).
+  unfold vlc_entry_wf in Hwf. repeat (apply andb_prop in Hwf; destruct Hwf as [Hwf ?]). b2p. lia.
+Qed.
+
+Lemma uvlc_pair_max : forall (initial : bool) u0 u1, 0 <= u0 <= 34 -> 0 <= u1 <= 34 ->
+  snd (HtUvlc.pack_calls (if initial then HtUvlc.ojph_uvlc_initial_calls u0 u1
+                          else HtUvlc.ojph_uvlc_noninitial_calls u0 u1)) <= 16.
+Proof.
+  intros initial u0 u1 H0 H1.
+  assert (H : forallb (fun i : bool => forallb (fun u0 => forallb (fun u1 =>
+              snd (HtUvlc.pack_calls (if i then HtUvlc.ojph_uvlc_initial_calls u0 u1
+                                      else HtUvlc.ojph_uvlc_noninitial_calls u0 u1)) <=? 16)
+              (zrange 0 34)) (zrange 0 34)) [true; false] = true) by (vm_compute; reflexivity).
+  assert (Hi : In initial [true; false]) by (destruct initial; simpl; auto).
+  pose proof (proj1 (forallb_forall _ _) H initial Hi) as A. cbv beta in A.
+  pose proof (proj1 (forallb_forall _ _) A u0 (In_zrange 0 34 u0 H0)) as B. cbv beta in B.
+  pose proof (proj1 (forallb_forall _ _) B u1 (In_zrange 0 34 u1 H1)) as C. cbv beta in C.
+  apply Z.leb_le in C. exact C.
+Qed.
+
+(* The Scup budget.  The cleanup pass itself is not modelled, so its structure enters as named
+   hypotheses (they restate what encodeOJPHInitialRows / encodeOJPHSubsequentRows do):
+     H_quads    a code-block the encoder now accepts (validated width*height <= 4096, both >= 4,
+                edge blocks only smaller) has at most 1024 quads;
+     H_events   at most one MEL event per quad (context 0) plus one per quad pair (initial rows);
+     H_vlcbits  the VLC stream holds, per quad, one CxtVLC codeword (<= 7 bits, vlc_codeword_max) and,
+                per quad pair, one U-VLC pair (<= 16 bits, uvlc_pair_max), after its 4 initial bits;
+     H_vlcbytes ojphVLCWriter puts at least 7 stream bits into every byte (its stuffing rule) and has
+                at most two bytes that are not full (the initial 0xFF and the open byte).
+   With the proved MEL bound (ojph_mel_bytes_bound) the MEL+VLC suffix then fits the 12-bit
+   locator: Scup <= 4079, the guard of scup_roundtrip. *)
+Theorem scup_fits_validated_block : forall (Q nev melbytes vlcbits vlcbytes : Z),
+  0 <= Q <= 1024 ->                                   (* H_quads *)
+  0 <= nev <= Q + (Q + 1) / 2 ->                      (* H_events *)
+  7 * melbytes <= 6 * nev + 9 ->                      (* ojph_mel_bytes_bound *)
+  0 <= vlcbits <= 4 + 7 * Q + 16 * ((Q + 1) / 2) ->   (* H_vlcbits *)
+  7 * (vlcbytes - 2) <= vlcbits ->                    (* H_vlcbytes *)
+  melbytes + vlcbytes <= 4079.
+Proof.
+  intros Q nev melbytes vlcbits vlcbytes HQ Hev Hmel Hvb Hvy.
+  assert ((Q + 1) / 2 < 513) by (apply Z.div_lt_upper_bound; lia).
+  assert (0 <= (Q + 1) / 2) by (apply Z.div_pos; lia).
+  lia.
+Qed.
+
